@@ -7,9 +7,13 @@
 // number of entries of a shard by its maximum.
 package concurrent_map
 
+// valOK: the value invariant a user of the map chooses (pkg/cache: values are non-nil entries)
+//@ spec func valOK(v int) bool
+
 //@ type shard
 //@   lock l protects max, m
 //@   invariant l: self.m != nil && (self.max > 0 ==> len(self.m) <= self.max)
+//@   invariant l: forall k int :: (k in self.m) ==> valOK(self.m[k])
 
 // hashing is a pure function of the key: a key always maps to the same shard
 //@ interface Hashable.Sum
@@ -21,6 +25,7 @@ package concurrent_map
 //@ func (m *shard) get [C11]
 //@   requires m != nil
 //@   ensures result_1 == (key in atlock(m.m)) && (result_1 ==> result_0 == atlock(m.m[key]))
+//@   ensures result_1 ==> valOK(result_0)
 
 //@ func (m *shard) len [C11]
 //@   requires m != nil
@@ -39,13 +44,14 @@ package concurrent_map
 // set: afterwards key maps to v; no key appears that was not there; other surviving values are
 // untouched; (monitor invariant, checked at the unlock:) the shard is within its maximum.
 //@ func (m *shard) set [C11]
-//@   requires m != nil
+//@   requires m != nil && valOK(v)
 //@   ensures (key in m.m) && m.m[key] == v && m.m == atlock(m.m)
 //@   ensures forall k int :: k != key && (k in m.m) ==> (k in atlock(m.m)) && m.m[k] == atlock(m.m[k])
 //@   loop 0:
 //@     invariant m.m == atlock(m.m) && m.m != nil && m.max == atlock(m.max) && m.max > 0 && 0 <= len(m.m) && len(m.m) <= atlock(len(m.m))
 //@     invariant forall k int :: (k in m.m) ==> (k in atlock(m.m)) && m.m[k] == atlock(m.m[k])
 //@     invariant forall k int :: visited(0, k) ==> !(k in m.m)
+//@     invariant forall k int :: (k in m.m) ==> valOK(m.m[k])
 
 //@ func (m *Map) getShard [C11]
 //@   requires m != nil
@@ -60,10 +66,14 @@ package concurrent_map
 //@     invariant forall i int :: 0 <= i && i < it0 ==> m.shards[i].max == sizePreShard && m.shards[i].m != nil
 
 //@ func (m *Map) Get [C11]
+//@   log mapGet
 //@   requires m != nil
+//@   ensures result_1 ==> valOK(result_0)
 //@ func (m *Map) Set [C11]
-//@   requires m != nil
+//@   log mapSet
+//@   requires m != nil && valOK(v)
 //@ func (m *Map) Del [C11]
+//@   log mapDel
 //@   requires m != nil
 //@ func (m *Map) Len [C11]
 //@   requires m != nil
